@@ -2,7 +2,7 @@
     for every slot needs only ISA features the capability set provides.  The capability sets are finite
     (sub-sets of [all_features]); an arbitrary list is first normalised to one of them, then all 2^14 sets
     x 19 slots are swept by vm_compute. *)
-From Coq Require Import List Bool String Lia.
+From Coq Require Import List Bool String Lia Arith.
 From Carquet Require Import Gen.Dispatch_gen Gen.Intrinsics_gen Simd.DispatchModel.
 Import ListNotations.
 
@@ -63,6 +63,32 @@ Qed.
 
 (* ------------------------------------------------------------------ the sweep *)
 
+(** the kernels for which Props/Properties_C15.v carries a kernel_eq_scalar theorem (the scalar definitions are
+    their own reference); if the table ever selects anything else the sweep below fails *)
+Definition proved_kernels : list kernel :=
+  [K_scalar_prefix_sum_i32; K_scalar_prefix_sum_i64; K_scalar_gather_i32; K_scalar_gather_i64; K_scalar_gather_float;
+   K_scalar_gather_double; K_scalar_byte_split_encode_float; K_scalar_byte_split_decode_float;
+   K_scalar_byte_split_encode_double; K_scalar_byte_split_decode_double; K_scalar_unpack_bools; K_scalar_pack_bools;
+   K_scalar_find_run_length_i32; K_scalar_crc32c; K_scalar_match_copy; K_scalar_match_length; K_scalar_count_non_nulls;
+   K_scalar_build_null_bitmap; K_scalar_fill_def_levels;
+   K_carquet_sse_prefix_sum_i32; K_carquet_sse_prefix_sum_i64; K_carquet_sse_gather_i32; K_carquet_sse_gather_i64;
+   K_carquet_sse_gather_float; K_carquet_sse_gather_double; K_carquet_sse_byte_stream_split_encode_float;
+   K_carquet_sse_byte_stream_split_decode_float; K_carquet_sse_byte_stream_split_encode_double;
+   K_carquet_sse_byte_stream_split_decode_double; K_carquet_sse_unpack_bools; K_carquet_sse_pack_bools;
+   K_carquet_sse_crc32c; K_carquet_sse_match_copy; K_carquet_sse_match_length; K_carquet_sse_count_non_nulls;
+   K_carquet_sse_build_null_bitmap; K_carquet_sse_fill_def_levels; K_carquet_sse_find_run_length_i32;
+   K_carquet_avx2_prefix_sum_i32; K_carquet_avx2_prefix_sum_i64; K_carquet_avx2_gather_i32; K_carquet_avx2_gather_i64;
+   K_carquet_avx2_gather_float; K_carquet_avx2_gather_double; K_carquet_avx2_byte_stream_split_encode_float;
+   K_carquet_avx2_byte_stream_split_decode_float; K_carquet_avx2_unpack_bools; K_carquet_avx2_pack_bools;
+   K_carquet_avx2_find_run_length_i32;
+   K_carquet_avx512_prefix_sum_i32; K_carquet_avx512_prefix_sum_i64; K_carquet_avx512_gather_i32; K_carquet_avx512_gather_i64;
+   K_carquet_avx512_gather_float; K_carquet_avx512_gather_double; K_carquet_avx512_byte_stream_split_encode_float;
+   K_carquet_avx512_byte_stream_split_decode_float; K_carquet_avx512_unpack_bools; K_carquet_avx512_pack_bools;
+   K_carquet_avx512_find_run_length_i32].
+
+Definition proved_indices : list nat := map kernel_index proved_kernels.
+Definition is_proved (k : kernel) : bool := existsb (Nat.eqb (kernel_index k)) proved_indices.
+
 Definition slot_ok (base : list (slot * kernel)) (bl : list (list feature * list (slot * kernel)))
            (c : caps) (s : slot) : bool :=
   match select_with base bl c s with Some k => supported c k | None => false end.
@@ -94,6 +120,45 @@ Proof. vm_compute. reflexivity. Qed.
 Theorem dispatch_selects_supported_all :
   forall (c : caps) (s : slot), exists k, select c s = Some k /\ supported c k = true.
 Proof. exact (table_ok_sound _ _ current_table_ok). Qed.
+
+(** whatever is selected is a kernel named in the table ... *)
+Lemma last_assign_in l s : forall acc k, last_assign l s acc = Some k -> acc = Some k \/ In k (map snd l).
+Proof.
+  induction l as [|[s' k'] tl IH]; intros acc k H; [left; exact H|].
+  cbn [last_assign] in H. apply IH in H. destruct H as [H|H]; [|right; right; exact H].
+  destruct (slot_beq s' s); [right; left; cbn; congruence|left; exact H].
+Qed.
+
+Definition block_kernels (bl : list (list feature * list (slot * kernel))) : list kernel :=
+  flat_map (fun b => map snd (snd b)) bl.
+
+Lemma run_blocks_in bl c s : forall acc k, run_blocks bl c s acc = Some k -> acc = Some k \/ In k (block_kernels bl).
+Proof.
+  induction bl as [|[cond asg] tl IH]; intros acc k H; [left; exact H|].
+  cbn [run_blocks] in H. apply IH in H. unfold block_kernels. cbn [flat_map snd].
+  destruct H as [H|H]; [|right; apply in_or_app; right; exact H].
+  destruct (cond_holds c cond); [|left; exact H].
+  apply last_assign_in in H. destruct H as [H|H]; [left; exact H|right; apply in_or_app; left; exact H].
+Qed.
+
+(** ... and every kernel named in the table is one proved equal to its scalar definition (or a scalar definition) *)
+Lemma table_kernels_proved : forallb is_proved (map snd base_table ++ block_kernels override_blocks) = true.
+Proof. vm_compute. reflexivity. Qed.
+
+Theorem dispatch_selects_proved_all :
+  forall (c : caps) (s : slot), exists k, select c s = Some k /\ In k proved_kernels.
+Proof.
+  intros c s. destruct (dispatch_selects_supported_all c s) as [k [H1 _]]. exists k. split; [exact H1|].
+  assert (Hin : In k (map snd base_table ++ block_kernels override_blocks)).
+  { unfold select, select_with in H1. apply run_blocks_in in H1. apply in_or_app. destruct H1 as [H1|H1]; [left|right; exact H1].
+    apply last_assign_in in H1. destruct H1 as [H1|H1]; [discriminate H1|exact H1]. }
+  pose proof table_kernels_proved as P. rewrite forallb_forall in P. specialize (P k Hin).
+  unfold is_proved, proved_indices in P. apply existsb_exists in P. destruct P as [i [Hi Heq]]. apply Nat.eqb_eq in Heq.
+  apply in_map_iff in Hi. destruct Hi as [k' [Hk' Hi]]. subst i.
+  assert (Inv : forall x, nth_error all_kernels (kernel_index x) = Some x) by (intro x; destruct x; reflexivity).
+  assert (k = k') by (pose proof (Inv k) as A; rewrite Heq, Inv in A; congruence).
+  subst. exact Hi.
+Qed.
 
 (** The same statement is FALSE for the table of the pinned tree (AVX-512 block keyed on avx512f alone):
     a CPU with AVX-512F but without AVX-512BW (e.g. Knights Landing) gets a byte_split_encode_float kernel
